@@ -11,8 +11,8 @@ from vf.oracles import jaccard as J
 from vf.oracles.fasta import write_fasta
 
 FASTA_EXTS = ('.fasta', '.fna', '.ffn', '.faa', '.frn', '.fa')
-NAME_STEMS = ['plain', 'with space', 'comma,name', 'dq"uote', "sq'uote", 'ünï', '日本', 'semi;colon', 'paren(1)', 'colon:x', 'dot.in.name', 'trailing.', 'x.fasta.bak', '-dash', 'tab\tname', 'a=b', 'None', 'true', '1e5', '007', 'NaN']
-ID_POOL = ['id plain', 'id, comma', 'id "dq"', "id 'sq'", 'id\nnewline', 'id\ttab', ' id lead', 'ïd', '標本', 'id;semi', 'id(paren)', 'id:colon', '', '#id']
+NAME_STEMS = ['plain', 'with space', 'comma,name', 'dq"uote', "sq'uote", 'ünï', '日本', 'semi;colon', 'paren(1)', 'colon:x', 'dot.in.name', 'trailing.', 'x.fasta.bak', '-dash', 'tab\tname', 'a=b', 'None', 'true', '1e5', '007', 'NaN', 'cafe\u0301', 'sample_\u212b', 'o\u0308\u0323x', '\uff46\uff55\uff4c\uff4c', 'zero\u200dwidth', '\ufb01le']   # the last six: NFD spelling, Angstrom sign, stacked combining marks, full-width letters, zero-width joiner, ligature
+ID_POOL = ['cafe\u0301 id', 'caf\u00e9 id', 'id\u212b', 'id plain', 'id, comma', 'id "dq"', "id 'sq'", 'id\nnewline', 'id\ttab', ' id lead', 'ïd', '標本', 'id;semi', 'id(paren)', 'id:colon', '', '#id']
 
 
 def expected_label(filename: str) -> str:
